@@ -141,7 +141,9 @@ def _conv_case(rng, dim, nmax, modes=None, kernel_kind=None, wide_axis=None, nar
     modes = [(_mode(rng) if m is None else m) for m in modes]
     if wide_axis is None and rng.random() < 0.15:
         wide_axis = int(rng.integers(0, dim))
-    return {"t": "conv", "n": n, "unit": [round(float(v), 3) for v in rng.uniform(0.4, 2.5, 3)], "modes": modes,
+    # element sizes in any physical unit (a micrometre-scale part in metres): one common factor on all axes
+    us = float(10.0 ** rng.integers(-9, 4)) if rng.random() < 0.3 else 1.0
+    return {"t": "conv", "n": n, "unit": [round(float(v), 3) * us for v in rng.uniform(0.4, 2.5, 3)], "modes": modes,
             "kernel": _kernel(rng, n, kernel_kind, wide_axis, narrow_axis),
             "npconst": bool(rng.random() < 0.2), "pass_z": bool(dim == 3 or rng.random() < 0.5)}
 
@@ -160,7 +162,8 @@ def plan(tier, seed):
         radii = [HOSTILE_R[int(i)] for i in rng.choice(len(HOSTILE_R), nr, replace=False)]
         radii += [float(max(n)) + 0.5, 2.0 * max(n) + 1.0][: 1 if quick else 2]
         radii += [float(rng.uniform(0.3, max(n) + 2.0)) for _ in range(2 if quick else 3)]
-        cases.append({"t": "dens", "n": n, "unit": [round(float(v), 3) for v in rng.uniform(0.4, 2.5, 3)],
+        us = float(10.0 ** rng.integers(-9, 4)) if rng.random() < 0.3 else 1.0
+        cases.append({"t": "dens", "n": n, "unit": [round(float(v), 3) * us for v in rng.uniform(0.4, 2.5, 3)],
                       "radii": radii, "intr": bool(rng.random() < 0.3)})
     # ---- FilterConv (a): every ordered pair of rules on every axis, narrow and wide kernel
     nmax = 6 if quick else 8
